@@ -11,6 +11,7 @@ fn main() {
         let code = match std::env::var("NQV_CHILD").as_deref() {
             Ok("loader-text") => nqverif::c08::child_loader_text(),
             Ok("c19") => nqverif::c19::child(),
+            Ok("c17-probe") => nqverif::c17::child_probe(),
             Ok("c12-loader") => nqverif::c12::child_loader(),
             Ok("c03-generate") => nqverif::c03::child_generate(),
             other => {
@@ -73,6 +74,7 @@ fn main() {
             "C14" => nqverif::c14::replay(case),
             "C15" => nqverif::c15::replay(case),
             "C16" => nqverif::c16::replay(case),
+            "C17" => nqverif::c17::replay(case),
             "C18" => nqverif::c18::replay(case),
             "C19" => nqverif::c19::replay(case),
             _ => {
@@ -99,6 +101,7 @@ fn main() {
         "C14" => nqverif::c14::run(&args),
         "C15" => nqverif::c15::run(&args),
         "C16" => nqverif::c16::run(&args),
+        "C17" => nqverif::c17::run(&args),
         "C18" => nqverif::c18::run(&args),
         "C19" => nqverif::c19::run(&args),
         _ => {
